@@ -80,7 +80,23 @@ def theorem_at(file_rel, line):
 
 def property_theorems(prop):
     """(namespace-qualified names) of the property theorems declared in Props/<prop>.lean."""
-    path = os.path.join(PROPS_DIR, f"{prop}.lean")
+    names = []
+    for path in prop_files(prop):
+        names += _theorems_in(path, prop)
+    return names
+
+
+def prop_files(prop):
+    return sorted(
+        os.path.join(PROPS_DIR, f) for f in os.listdir(PROPS_DIR) if re.fullmatch(prop + r"[A-Za-z]*\.lean", f)
+    )
+
+
+def prop_modules(prop):
+    return ["PycfModel.Props." + os.path.basename(p)[:-5] for p in prop_files(prop)]
+
+
+def _theorems_in(path, prop):
     names = []
     ns = []
     with open(path) as f:
@@ -125,7 +141,8 @@ def audit(prop, timeout=600):
     os.makedirs(os.path.join(common.LEAN_DIR, ".audit"), exist_ok=True)
     path = os.path.join(common.LEAN_DIR, ".audit", f"Audit_{prop}.lean")
     with open(path, "w") as f:
-        f.write(f"import PycfModel.Props.{prop}\n")
+        for mod in prop_modules(prop):
+            f.write(f"import {mod}\n")
         for n in names:
             f.write(f"#print axioms {n}\n")
     try:
@@ -144,7 +161,7 @@ def check_proofs(report, prop, extra_targets=()):
     """Build + audit for one property. Returns (build_ok, driver_ok). Fills report.proof.
     Broken obligations are recorded in report.extra['broken_obligations'] for the caller, which
     runs the failing-input search before anything is reported."""
-    targets = [f"PycfModel.Props.{prop}"] + list(extra_targets)
+    targets = prop_modules(prop) + list(extra_targets)
     res = prepare(targets)
     broken = []
     if not res.ok:
@@ -176,7 +193,7 @@ def check_proofs(report, prop, extra_targets=()):
         {
             "obligations": max(len(names), 1),
             "discharged": discharged,
-            "checker_cmd": f"cd lean && lake build PycfModel.Props.{prop} pycf_driver && lake env lean .audit/Audit_{prop}.lean",
+            "checker_cmd": f"cd lean && lake build {' '.join(prop_modules(prop))} pycf_driver && lake env lean .audit/Audit_{prop}.lean",
             "trusted_base": [
                 "Lean 4.33.0 kernel",
                 "axioms: " + (", ".join(sorted(axioms_seen)) or "none"),
